@@ -133,6 +133,7 @@ class ContractDB:
         self.assumed = {}
         self.lemmas = {}
         self.specs = {}
+        self.samplers = {}
         self.files = []
         for f in sorted(glob.glob(os.path.join(self.dir, "*.py"))):
             self._load(f)
@@ -145,7 +146,10 @@ class ContractDB:
             if not isinstance(n, ast.FunctionDef):
                 continue
             for d in n.decorator_list:
-                if isinstance(d, ast.Name) and d.id == "spec":
+                if isinstance(d, ast.Call) and isinstance(d.func, ast.Name) and d.func.id == "sampler":
+                    # input generator for the concrete side (bounded contract evaluation); never seen by the prover
+                    self.samplers[ast.literal_eval(d.args[0])] = (n, f)
+                elif isinstance(d, ast.Name) and d.id == "spec":
                     s = SpecFn(n, f, src)
                     if s.name in self.specs:
                         raise SyntaxError("duplicate spec " + s.name)
